@@ -228,6 +228,17 @@ def build_rt():
     return os.path.join(TARGET, "debug", "verif-rt")
 
 
+def build_rt_min():
+    """The same harness against sylvia's default feature set only (staking; no stargate / cosmwasm_2_0): feature-dependent
+    code paths of the runtime library (cfg-guarded match arms) are exercised as a default user builds them."""
+    ensure_ws_members({"rt": os.path.join(ROOT, "harness", "rt")})
+    p = cargo(["build", "--offline", "-p", "verif-rt", "--no-default-features", "--features", "staking_only",
+               "--target-dir", os.path.join(CACHE, "target-min")], cwd=WS)
+    if p.returncode != 0:
+        raise BuildError("rt harness (default features) build failed", p.stdout + p.stderr)
+    return os.path.join(CACHE, "target-min", "debug", "verif-rt")
+
+
 class BuildError(Exception):
     def __init__(self, msg, out):
         super().__init__(msg)
